@@ -85,3 +85,7 @@ package groups
 //@ func (lc *LocalCache) Purge(key CacheKey)
 //@   modifies nothing
 //@   ensures [C17] deletes_this_key: called(@Delete#1) && arg(@Delete#1, 0) == lc.localCacheData && typeis(arg(@Delete#1, 1), "pkg/groups.CacheKey") && unbox(arg(@Delete#1, 1), "pkg/groups.CacheKey").Email == key.Email && unbox(arg(@Delete#1, 1), "pkg/groups.CacheKey").AllowedGroups == key.AllowedGroups
+
+// Stop only signals the loops (closing the channel they select on); it touches no cached answer.
+//@ func (c *FillCache) Stop()
+//@   modifies nothing
